@@ -78,6 +78,21 @@ CHECKS = {
    text="All 81 pairs of arm kinds (arm-local witnesses, time-lock jets on witnesses and constants, panic, nothing, under-constrained witness, nested match) x 4 selector values x maps (all witnesses, taken arm only, other arm only, none; two values per witness) x 5 environments (lock-time / sequence variants), plus the depth-1 term family: satisfy_with_env(.., Some(env)) must return a program with the committed CMR that decodes and succeeds under env, and must fail exactly when satisfy fails or the unpruned program fails under env.",
    note="The unpruned reference verdict executes satisfy()'s in-memory redeem program under the same environment.",
    ref="§6-C18"),
+ "C06": dict(
+   technique="bounded-exhaustive enumeration of token-level edits and short strings through every text entry point, in isolated worker processes (fault attribution per input)",
+   text="Every single-token edit (delete / duplicate / replace by each / insert each, at every position, over a token alphabet with literal edge forms, huge digit runs and sizes, CR/LF/TAB, non-ASCII, comment markers, lone brackets) of seed programs covering every form (plus each bracket kind nested 12 deep), of witness / param modules and of JSON witness / argument files; thorough: all pairs of edits on the six smallest seeds; all strings up to length 2-4 over character alphabets; an edge-string x type matrix for value parsing and a type-string list. Each input goes through TemplateProgram::new -> instantiate -> commit -> satisfy -> encode, parse+Display, module parsers, serde_json, Value / ResolvedType::parse_from_str; any panic, abort or stack overflow is a violation.",
+   note="Workers run under `ulimit -v`; a dead worker is attributed to the input it announced; a 20 s watchdog marks inputs inconclusive. Inputs with bracket depth > 12 are skipped (counted). One known finding (D6: huge array size / list bound aborts on allocation).",
+   ref="§6-C06"),
+ "C16": dict(
+   technique="bounded-exhaustive enumeration of parseable texts (family x layouts, near misses, token mutants) through the real parser and printer, round-trip oracle",
+   text="Every family program in every layout (8) and render-option set (3), every single M_ast edit of the C04 base programs, the shipped examples and every single-token edit of the kitchen-sink programs and examples that still parses: parse(print(parse(t))) must equal parse(t), the printed text must be accepted exactly when the original is, and when both are accepted they must compile to the same CMR.",
+   note="Parse-tree equality is the library's PartialEq on parse::Program.",
+   ref="§6-C16"),
+ "C17": dict(
+   technique="bounded-exhaustive enumeration of (naming role, identifier, layout) states on the real front end, equivalence oracle against a plain-named baseline",
+   text="A baseline program in which every naming role occurs (let variable, nested pattern variable, match binder, function parameter, function name incl. fold target, alias in every type position, witness, parameter) is renamed, one role at a time (thorough: pairs of roles), with every identifier of a pool derived from all reserved words (suffix letter / digit / underscore, prefix, case flip) in every layout; plus alias inlining and one extra pair of parentheses around every sub-expression. Each variant must be accepted and compile to the baseline's CMR.",
+   note="Renamings that would capture another name of the baseline (per R1) are skipped.",
+   ref="§6-C17"),
 }
 
 NOT_BUILT_REASON = "check not built yet in this round (planned as bounded-exhaustive exploration, DESIGN.md §6); not claimed until it runs"
